@@ -386,6 +386,15 @@ func digitsN(r *rng.R, c dec.Ctx) *big.Int {
 }
 
 func expOperand(r *rng.R, c dec.Ctx) dec.D {
+	if r.Chance(1, 12) {
+		// 23*k +/- a hair (Exp sizes its working precision from |x|/23 in
+		// float64): the excess is below float64 resolution
+		k := r.Range(1, 999)
+		j := int64(17 + r.Intn(25))
+		v := new(big.Int).Mul(big.NewInt(23*k), dec.Pow10(j))
+		v.Add(v, big.NewInt(r.Range(-2, 2)))
+		return dec.D{Form: dec.Finite, Neg: r.Bool(), C: v, E: -j}
+	}
 	cf := digitsN(r, c)
 	var adj int64
 	switch r.Pick(45, 20, 15, 12, 8) {
@@ -604,6 +613,12 @@ func runC12(r *mon.Run) {
 		x, _ := dec.Parse("-3977600635E-8")
 		transCase(t, "value", "exp", c, x, dec.D{})
 		t.Count("pinned")
+		// fixed: Exp reported a false overflow a hair above a multiple of 23
+		for _, xs := range []string{"2300000000000000000000000001E-25", "-2300000000000000000000000001E-25", "2299999999999999999999999999E-25"} {
+			x4, _ := dec.Parse(xs)
+			transCase(t, "value", "exp", dec.Ctx{P: 5, Emin: -999, Emax: 999, Mode: "half_even"}, x4, dec.D{})
+			transCase(t, "value", "exp", dec.Ctx{P: 10, Emin: -999, Emax: 999, Mode: "half_even"}, x4, dec.D{})
+		}
 		// fixed: Ln did not converge with MinExponent 0
 		x2, _ := dec.Parse("613974E-1737")
 		transCase(t, "value", "ln", dec.Ctx{P: 4, Emin: 0, Emax: 50, Mode: "half_down"}, x2, dec.D{})
